@@ -171,6 +171,23 @@ def r12_3(ctx):
         if coords == {(2, 'x'), (2, 'y'), (3, 'x'), (3, 'y')} and has_len:
             full += 1
     ctx.check(full >= 1, R, 'draw_target::Source::new_linear_gradient|matrix', b.loc(), 'matrix depends on start.x, start.y, end.x, end.y and the length', 'no arm of new_linear_gradient builds a matrix that depends on both coordinates of start and end and on the length')
+    # the degenerate matrix is used for a zero-length gradient only: the regular arm is guarded by `length != 0` and by
+    # nothing else (a threshold such as `length >= 1` is in user units and swallows short gradients that a scaling
+    # transform makes many pixels long)
+    okg = False
+    seen = []
+    for bi, k2, st_ in b.statements():
+        if st_['k'] == 'assign' and st_['rv']['k'] == 'agg' and st_['rv'].get('v') == 'LinearGradient' and bi in an.cfg.reach:
+            t = an.rvalue_term(bi, k2, st_['rv'])
+            D = Deps(an)
+            D.closure(t[4][2][1])
+            if not any(is_call(x, '::length') for x in D.visited):
+                continue      # the degenerate arm
+            gs = [(op, a2, b3) for op, a2, b3, si in normalized_guards(ctx, b, bi) if b3 is not None]
+            cmp_len = [(op, a2, b3) for op, a2, b3 in gs if is_call(strip_all(a2), '::length') or (strip_all(a2)[0] in ('phi', 'rec') and any(is_call(x, '::length') for x in dt.direct_deps(an, a2)))]
+            seen = sorted(set(op for op, a2, b3 in cmp_len))
+            okg = bool(cmp_len) and all(op in ('Ne', '!Eq') and const_val(b3) == 0 for op, a2, b3 in cmp_len)
+    ctx.check(okg, R, 'draw_target::Source::new_linear_gradient|zero-length guard', b.loc(), 'regular matrix whenever length != 0', 'the regular gradient matrix of new_linear_gradient is not used exactly when length != 0 (comparisons of the length on that path: %s): short gradients fall into the degenerate single-colour arm' % seen)
     # choose_shader gradient arms
     b = ctx.body(CS, R)
     an = ctx.an(b)
